@@ -262,6 +262,15 @@ var corrupters = map[string]func(rec map[string]any) bool{
 		}
 		return false
 	},
+	"BuiltIn_Trace": func(r map[string]any) bool {
+		defs, _ := r["defs"].([]any)
+		if len(defs) == 0 {
+			return false
+		}
+		d := defs[len(defs)/2].(map[string]any)
+		d["flag"] = !d["flag"].(bool)
+		return true
+	},
 	"Errors_Trace": func(r map[string]any) bool { r["msgLen"] = float64(0); return true },
 }
 
